@@ -139,3 +139,8 @@ pub struct Witnesses;
     ok = r.returncode == 0 and mres is not None and mres.group(1) == 'ok' and int(mres.group(2)) == 6 and out.count('compile fail') >= 3
     eng.ob(ok, PROP, 'witness', 'compile-fail-and-twins', 'type-level witnesses did not all hold (expected 6 doc tests: 3 compile_fail + 3 compiling twins): %s' % (mres.group(0) if mres else out[-600:]))
     return {'witness': {'passed': int(mres.group(2)) if mres else 0, 'failed': int(mres.group(3)) if mres else None, 'wall_s': round(time.time() - t0, 1), 'cmd': 'cargo +nightly test --doc --offline (in .cache/witness)'}}
+
+import probes as _pb
+PROBES = [
+    _pb.drop_facts('query', 'GetAsk', 'uuid_parse'),
+]
